@@ -16,6 +16,19 @@ CLAIMED = {
     },
 }
 
+CLAIMED["C14"] = {
+    "text": "One simplex step from ANY well-formed finite tableau is proved (Verus, unbounded): Tableau::pivot keeps exactly the solution set of the equation system, "
+            "makes the entering column the unit column e_t and keeps the other basic unit columns, keeps c.x - value constant on the solution set, updates basis and dimensions; "
+            "step_inner reports Finished only without an improving column, Unbounded only with a genuine witness column, and a Pivot only on an eligible (entering, leaving) pair; "
+            "ghost lemmas derive monotonicity of the value and feasibility up to the ratio test's tolerance; the six tolerance predicates have their exact meaning and form a consistent order. "
+            "Because the contract quantifies over every tableau it covers every prefix of every pivot sequence. The column/row selection functions are checked only by BOUNDED Kani harnesses (labelled, not counted as proved). "
+            "Anti-cycling (finishing within the iteration limit) is liveness and is NOT decided.",
+    "note": "Trusted: prelude/f64_layer.rs (exact real arithmetic on finite floats; powi by a one-entry table). Assumed in Verus and only bounded-checked by Kani: is_optimal/find_h/find_t contracts. "
+            "Not decided: termination/anti-cycling, two-phase drive-out (split_at_mut code neither back end takes).",
+    "technique": "Verus loop invariants + ghost linear-algebra lemmas on extracted Tableau::pivot/step_inner; Kani bounded harnesses for the selection rules",
+    "design_ref": "DESIGN.md §5 C14",
+}
+
 NOT_APPLICABLE = {
     "C03": "quantifies over source texts through the pest-generated parser and an external MILP search; every in-repo step that can carry a contract is covered by C01/C02/C04/C05; no further function exists to attach an obligation to",
     "C06": "relates two parses; the expansion engine works on parser IL with dyn Fn callbacks, scope frames and evaluated iterables that Verus does not accept and Kani cannot execute; its specification would be a formal semantics of the whole language",
@@ -23,5 +36,5 @@ NOT_APPLICABLE = {
     "C17": "the export is text read by an independent reader; a contract would need a formal LP-format reader and a string theory for format!/push_str output; Kani cannot execute float formatting",
     "C20": "sensitivities are computed inside clarabel/good_lp; rooc only forwards them by name, so no contract on repository code decides the sign convention",
     "C01": PENDING, "C02": PENDING, "C04": PENDING, "C05": PENDING, "C08": PENDING, "C10": PENDING, "C11": PENDING, "C12": PENDING,
-    "C13": PENDING, "C14": PENDING, "C15": PENDING, "C16": PENDING, "C18": PENDING, "C19": PENDING,
+    "C13": PENDING, "C15": PENDING, "C16": PENDING, "C18": PENDING, "C19": PENDING,
 }
